@@ -26,14 +26,17 @@
 // header: {"ns":N, "bstyle":"sync"|"iter", "nstyle":"co"|"fut"}
 //   bstyle: blocking access as  if (gen.next()) gen.value();  or  it = gen.begin() / ++it / it != end / *it
 //   nstyle: non-blocking access as  co_await gen.next()  in a small coroutine, or  gen()  future kept and polled
-// Values: source s yields 100*s + j.
-// projection (keys sorted): {"alive","ast","cscript","obs","pend":{"c","s1",..},"queue","sloc","spar","sscr","sseq","sst","waiter"}
+// Values: source s yields 100*s + j.  Failures: a step of the "throw" family lets an exception of the step's kind out of
+// the source (aggregator_exc.h); what the consumer gets is attributed by the identity of the exception object and
+// reported with its observed dynamic type ("k").
+// projection (keys sorted): {"alive","ast","cscript","obs":[{"k","r","s","v"}],"pend":{"c","s1",..},"queue","sloc","spar","sscr","sseq","sst","waiter"}
 #include <cocls/generator.h>
 #include <cocls/generator_aggregator.h>
 #include <cocls/async.h>
 #include <cocls/future.h>
 #include <cocls_verif/pthread_shim.h>
 #include "replay_common.h"
+#include "aggregator_exc.h"
 
 #include <optional>
 
@@ -57,7 +60,7 @@ void operator delete[](void *p) noexcept { operator delete(p); }
 void operator delete(void *p, std::size_t) noexcept { operator delete(p); }
 void operator delete[](void *p, std::size_t) noexcept { operator delete(p); }
 
-struct SrcExc : std::exception { int s; explicit SrcExc(int s_) : s(s_) {} };
+using agx::SrcExc;
 
 // ---------------------------------------------------------------------------------------------
 // access to private / protected state
@@ -81,7 +84,7 @@ struct CbProbe : Cb {
 };
 
 // ---------------------------------------------------------------------------------------------
-struct Obs { std::string r = "pending"; int s = 0; int v = 0; };
+struct Obs { std::string r = "pending"; int s = 0; int v = 0; std::string k = "none"; };
 enum Kind { K_NONE, K_B, K_N, K_DESTROY, K_RESOLVE, K_QUIT };
 struct Cmd { Kind kind = K_NONE; int idx = 0; };
 
@@ -118,6 +121,7 @@ struct SrcState {
     bool has_op = false;
     cocls::promise<int> prom;       // of the operation the source awaits
     void *cb = nullptr;             // its GenCallback, learned on first activation
+    std::exception_ptr ep;          // the exception that left its body
 };
 
 // a scripted source generator: EVERY step first awaits an operation, which is completed on the source's own thread
@@ -153,17 +157,28 @@ struct World {
 
     // ---- what the consumer sees -------------------------------------------------------------
     static void set_val(Obs &o, int v) { o.r = "val"; o.s = v / 100; o.v = v % 100; }
+    static void nomore(Obs &o) { o.r = "end"; o.s = 0; o.v = 0; }   // no_more_values_exception: the sequence is over
+    // To be called in a catch handler: what an access of the aggregate threw at the consumer.  The exception object that
+    // left a source is that source's failure, reported with its observed type; anything else is the library's own
+    // signalling (`nomore_ends`: a no_more_values_exception means "the sequence is over" in the access style at hand).
+    void caught(Obs &o, bool nomore_ends = false) {
+        std::exception_ptr ep = std::current_exception();
+        if (int s = agx::source_of(src, ep)) { o.r = "exc"; o.s = s; o.v = 0; o.k = agx::kind_of(ep); return; }
+        try { throw; }
+        catch (const SrcExc &e) { o.r = "exc"; o.s = e.s; o.v = 0; o.k = "user"; }     // (a copy of it)
+        catch (const cocls::no_more_values_exception &) { if (nomore_ends) nomore(o); else o.r = "other_exception"; }
+        catch (const cocls::value_not_ready_exception &) { o.r = "notready"; }
+        catch (...) { o.r = "other_exception"; }
+    }
     void observe_next(Obs &o, bool b) {
         if (b) {
             try { set_val(o, gen->value()); }
-            catch (const SrcExc &e) { o.r = "exc"; o.s = e.s; o.v = 0; }
-            catch (const cocls::value_not_ready_exception &) { o.r = "notready"; }
-            catch (...) { o.r = "other_exception"; }
+            catch (...) { caught(o); }
         } else {
             o.r = "end"; o.s = 0; o.v = 0;
             try { (void) gen->value(); o.r = "end_with_value"; }
-            catch (const SrcExc &) { o.r = "end_with_exception"; }
-            catch (const cocls::value_not_ready_exception &) {}
+            catch (const cocls::value_not_ready_exception &) { if (agx::source_of(src, std::current_exception())) o.r = "end_with_exception"; }
+            catch (...) { o.r = "end_with_exception"; }
         }
     }
     void observe_future(Obs &o, cocls::future<int> &f, int i) {
@@ -171,18 +186,15 @@ struct World {
         bool hv = f.has_value();
         if (!hv) { o.r = "end"; o.s = 0; o.v = 0; return; }
         try { set_val(o, (i & 1) ? *f : f.value()); }
-        catch (const SrcExc &e) { o.r = "exc"; o.s = e.s; o.v = 0; }
-        catch (...) { o.r = "other_exception"; }
+        catch (...) { caught(o); }
     }
-    static void nomore(Obs &o) { o.r = "end"; o.s = 0; o.v = 0; }   // no_more_values_exception: the sequence is over
 
     void sync_access(int i) {
         Obs &o = obs[i - 1];
         try {
             bool b = gen->next();           // next_sync: resumes the aggregate, then _block.wait
             observe_next(o, b);
-        } catch (const cocls::no_more_values_exception &) { nomore(o); }
-        catch (...) { o.r = "other_exception"; }
+        } catch (...) { caught(o, true); }
     }
     void iter_access(int i) {
         Obs &o = obs[i - 1];
@@ -193,17 +205,14 @@ struct World {
             it = b ? "true" : "false";
             if (b) {
                 try { set_val(o, **iter); }
-                catch (const SrcExc &e) { o.r = "exc"; o.s = e.s; o.v = 0; }
-                catch (...) { o.r = "other_exception"; }
+                catch (...) { caught(o); }
             } else observe_next(o, false);
-        } catch (const cocls::no_more_values_exception &) { nomore(o); }
-        catch (...) { o.r = "other_exception"; }
+        } catch (...) { caught(o, true); }
     }
     void future_access(int i) {
         Obs &o = obs[i - 1];
         try { futs[i].reset(new cocls::future<int>((*gen)())); }
-        catch (const cocls::no_more_values_exception &) { nomore(o); futs.erase(i); }
-        catch (...) { o.r = "other_exception"; futs.erase(i); }
+        catch (...) { caught(o, true); futs.erase(i); }
     }
     void poll_futures() {
         for (auto &kv : futs) {
@@ -281,7 +290,7 @@ struct World {
         m.set("ast", ast);
         m.set("cscript", J::list(cdone.begin(), cdone.end()));
         J ol = J::list();
-        for (auto &o : obs) { J e = J::map(); e.set("r", o.r); e.set("s", o.s); e.set("v", o.v); ol.push(e); }
+        for (auto &o : obs) { J e = J::map(); e.set("k", o.k); e.set("r", o.r); e.set("s", o.s); e.set("v", o.v); ol.push(e); }
         m.set("obs", ol);
         J ql = J::list();
         std::string waiter = "none";
@@ -473,9 +482,12 @@ static G source_fn(World *w, int s, Param) {
             if (me.seq & 1) co_yield v;
             else co_yield int(v);
             me.st = "run";
-        } else if (kind == "throw") {
+        } else if (agx::is_throw(kind)) {
             me.st = "exc";
-            throw SrcExc(s);
+            try { agx::raise(kind, s); }
+            catch (...) { me.ep = std::current_exception(); throw; }
+            w->error = "unknown source step " + kind;
+            co_return;
         } else if (kind == "return") {
             me.st = "done";
             co_return;
@@ -490,10 +502,8 @@ static cocls::async<void> co_access(World &w, int i) {
     try {
         bool b = co_await w.gen->next();
         w.observe_next(w.obs[i - 1], b);
-    } catch (const cocls::no_more_values_exception &) {
-        World::nomore(w.obs[i - 1]);
     } catch (...) {
-        w.obs[i - 1].r = "other_exception";
+        w.caught(w.obs[i - 1], true);
     }
     w.helpers_finished++;
 }
